@@ -242,6 +242,14 @@ func (g *G) U16() uint16 {
 	case 3:
 		if len(g.nums) > 0 {
 			if x := g.nums[t.Int(len(g.nums))] & 0xffff; x != 0 {
+				switch t.Int(4) {
+				case 0:
+					return uint16(0x10000 - x) // the two add up to 65536: a 16-bit sum of them is 0
+				case 1:
+					if x != 0xffff {
+						return uint16(0xffff - x) // ... or to 65535
+					}
+				}
 				return uint16(x)
 			}
 		}
@@ -277,6 +285,14 @@ func (g *G) U32() uint32 {
 	case 3:
 		if len(g.nums) > 0 {
 			if x := g.nums[t.Int(len(g.nums))]; x != 0 {
+				switch t.Int(4) {
+				case 0:
+					return -x // the two add up to 2^32
+				case 1:
+					if x != 1<<32-1 {
+						return ^x
+					}
+				}
 				return x
 			}
 		}
